@@ -47,6 +47,32 @@ def run(ctx):
         scen.append({"id": "stale%d" % k, "transport": tr, "role": role, "kind": "stale", "seed": k}); k += 1
         for what in MALFORMED.get(tr, []):
             scen.append({"id": "malf%d" % k, "transport": tr, "role": role, "kind": "malformed", "what": what, "seed": k}); k += 1
+    # meek_lite: the server / front drops the connection instead of answering, at every stage of the write backlog
+    # (the worker in a round trip, 0..16 writes queued, one more Write blocked on the full queue); driven by cmd/c16,
+    # judged by MeekTrace: every call returns (errors allowed from the fault on), nothing panics, the worker ends
+    mscen = []
+    for i, nw in enumerate([0, 1, 2, 15, 16, 17, 18, 19, 40] if not quick else [0, 1, 16, 17, 18, 19]):
+        for variant in range(2 if quick else 4):
+            steps = []
+            if variant % 2 == 1:
+                steps += [{"a": "write", "n": 100}, {"a": "respond", "n": 50}, {"a": "read", "n": 0}]
+            steps += [{"a": "write", "n": rng.choice([1, 10, 1000])} for _ in range(nw)]
+            steps += [{"a": "pause", "n": 20}, {"a": "cut", "n": 0}]
+            if variant >= 2:
+                steps += [{"a": "write", "n": 5}]
+            mscen.append({"id": "meekfault%d.%d" % (i, variant), "steps": steps, "front": variant == 3, "src": "fault"})
+    mbin = ctx.go_build("./cmd/c16")
+    mtr = ctx.exec_scenarios(mbin, mscen, "meekfault", shards=8, timeout=1500)
+    mtr = ctx.drop_dead(mtr)
+    mrej = ctx.validate("MeekTrace", "MeekTrace.cfg", mtr, label="meek_lite under a dropped connection")
+    ctx.log("meek_lite faults: %d scenarios, %d rejected" % (len(mtr), len(mrej)))
+
+    def mreexec(tr):
+        t2 = ctx.exec_scenarios(mbin, [tr["scenario"]], "meekfault-re", timeout=600)
+        rej = ctx.validate("MeekTrace", "MeekTrace.cfg", t2, label="re-validation")
+        return rej[0] if rej else None
+    ctx.settle(mrej, mreexec, lambda tr: "meek_lite endpoint after the server dropped the connection: rejected at event %s: %s (scenario %s)" % (
+        tr["reject"]["at_event_index"], json.dumps(tr["reject"]["event"])[:300], json.dumps(tr["scenario"])[:300]), attempts=2)
     binary = ctx.go_build("./cmd/c10")
     traces = ctx.exec_scenarios(binary, scen, "c10", shards=15, timeout=3000)
     if len(traces) != len(scen) and not any(t.get("crashed") for t in traces):
@@ -69,7 +95,7 @@ def run(ctx):
         tr["reject"]["at_event_index"], json.dumps(tr["reject"]["event"])[:300], json.dumps(tr["scenario"])), attempts=2)
     ctx.assumptions += ["input exploration is model-structured (field boundaries, every handshake byte in the thorough tier) plus random; it is NOT coverage-guided",
                         "'wedged' = the call has not returned 10 s after the fault was delivered while the wire shows nothing left to read",
-                        "SOCKS5 (C17) and meek_lite (C16) faults are exercised by their own drivers; the Go runtime's panic on nil OpError.Err etc. is out of scope"]
+                        "SOCKS5 front end faults are exercised by C17's driver; meek_lite: dropped connections at every stage of the write backlog (cmd/c16, MeekTrace); the Go runtime's panic on nil OpError.Err etc. is out of scope"]
     return ctx.finish("model_checking", extra_cov={"fault_scenarios": len(traces), "by_kind": kinds,
                       "rule": "8 transport/role profiles (incl. the ScrambleSuit session-ticket handshake of a second connection) x (cut positions at field boundaries + random, thorough: every byte) x (EOF, error, deadline) + junk floods + "
                               "data-phase cuts / garbage + authenticated malformed packets + stale-timer probes"})
